@@ -1187,13 +1187,11 @@ theorem exec_endMatrix (h : SimU K stk un σ s) (hpc : s.pc = (pc : Int))
 
 theorem exec_constant (n : String) (v : Val) (h : SimU K stk un σ s) (hpc : s.pc = (pc : Int))
     (hi : img.code[pc]? = some (.constant n v)) :
-    Exec img s (At K (pc + 1) stk un
-      { σ with vm := { σ.vm with constants := σ.vm.constants.put n v } }) := by
+    Exec img s (At K (pc + 1) stk un σ) := by
   apply Exec.step h.running
   apply Exec.done
-  rw [step_eq _ { s with constants := s.constants.put n v } h.running hpc hi rfl
-    (by simp only [execInstr]) h.running]
-  refine ⟨?_, (h.constant n v).setPc _⟩
+  rw [step_eq _ s h.running hpc hi rfl (by simp only [execInstr]) h.running]
+  refine ⟨?_, h.setPc _⟩
   show s.pc + 1 = _
   rw [hpc]; omega
 
